@@ -18,6 +18,8 @@ def run(chk):
     r = vplib.tlc("CLSig", "CLSig.nonvacuous.cfg", timeout=300, allow_fail=True)
     if "NoAccept" not in r.invariant_violated:
         raise vplib.Machinery("vacuity check failed")
+    if thorough:
+        vplib.coverage_check(chk, "CLSig", "CLSig.mc.quick.cfg", timeout=900)
     gen = "CLSig.gen.thorough.cfg" if thorough else "CLSig.gen.quick.cfg"
     g = vplib.tlc("CLSigGen", gen, workers=1, timeout=1800)
     cases = sorted(set(g.tagged_raw_json("C")))
